@@ -37,13 +37,17 @@ def to_harness(names, ops, scalar="f64", calls=None):
         k = o[0]
         if k == "function":
             e = ["function", [name_str(i) for i in o[1]], o[2], o[3]]
-            if len(o) > 4 and o[4] is not None:
+            if len(o) > 4 and (o[4] is not None or len(o) > 5):
                 e.append(o[4])
+            if len(o) > 5 and o[5] is not None:
+                e.append([float(o[5][0]), o[5][1]])
             prog.append(e)
         elif k == "partial_deriv":
             e = ["partial_deriv", name_str(o[1]), o[2], o[3]]
-            if len(o) > 4 and o[4] is not None:
+            if len(o) > 4 and (o[4] is not None or len(o) > 5):
                 e.append(o[4])
+            if len(o) > 5 and o[5] is not None:
+                e.append([float(o[5][0]), o[5][1]])
             prog.append(e)
         elif k == "invariant":
             e = ["invariant", o[1]]
@@ -68,8 +72,10 @@ def to_harness(names, ops, scalar="f64", calls=None):
     return c
 
 
-def cfn(arity, tag, ln=None):
-    return "{| fn_arity := %s; fn_tag := %s; fn_len := %s |}" % (cnat(arity), cz(tag), copt(None if ln is None else cnat(ln)))
+def cfn(arity, tag, ln=None, lenif=None):
+    return "{| fn_arity := %s; fn_tag := %s; fn_len := %s; fn_len_if := %s |}" % (
+        cnat(arity), cz(tag), copt(None if ln is None else cnat(ln)),
+        "None" if lenif is None else "(Some (%s, %s))" % (cz(lenif[0]), cnat(lenif[1])))
 
 
 def cnames(l):
@@ -81,9 +87,9 @@ def ops_to_coq(ops):
     for o in ops:
         k = o[0]
         if k == "function":
-            out.append("OFunction %s %s" % (cnames(o[1]), cfn(o[2], o[3], o[4] if len(o) > 4 else None)))
+            out.append("OFunction %s %s" % (cnames(o[1]), cfn(o[2], o[3], o[4] if len(o) > 4 else None, o[5] if len(o) > 5 else None)))
         elif k == "partial_deriv":
-            out.append("OPartialDeriv %s %s" % (cN(o[1]), cfn(o[2], o[3], o[4] if len(o) > 4 else None)))
+            out.append("OPartialDeriv %s %s" % (cN(o[1]), cfn(o[2], o[3], o[4] if len(o) > 4 else None, o[5] if len(o) > 5 else None)))
         elif k == "invariant":
             ln = o[2] if len(o) > 2 else None
             out.append("OInvariant {| f0_tag := %s; f0_len := %s |}" % (cz(o[1]), copt(None if ln is None else cnat(ln))))
